@@ -196,7 +196,20 @@ pub fn check_write(case: &WriteCase) -> CaseResult {
                 2 => format!("{}/zz/../f", dir),
                 _ => format!("{}//f/", dir),
             };
-            let mut h = match if case.append { v.append(&spelled) } else { v.write(&spelled) } {
+            // (prelude / 16: on Memfs the handle is opened through a cwd-relative spelling and the cwd changes while
+            // it is open - the path a handle writes back to is bound when the handle is opened)
+            let rel_then_chdir = (case.prelude / 16) % 2 == 1 && !case.stdfs;
+            let spelled = if rel_then_chdir {
+                let _ = v.set_cwd(dir);
+                "f".to_string()
+            } else {
+                spelled
+            };
+            let opened = if case.append { v.append(&spelled) } else { v.write(&spelled) };
+            if rel_then_chdir {
+                let _ = v.set_cwd("/");
+            }
+            let mut h = match opened {
                 Ok(h) => h,
                 Err(e) => return Err(Failure::new(format!("{}-open|err|{}", mode, backend), format!("{}({}) = Err({})", mode, path, e))),
             };
@@ -276,7 +289,7 @@ fn write_case(stdfs: bool) -> impl Strategy<Value = WriteCase> {
         prop::collection::vec(prop_oneof![12 => prop::collection::vec(any::<u8>(), 0..24), 1 => (65_000usize..70_000).prop_map(|n| (0..n).map(|i| (i % 253) as u8).collect::<Vec<u8>>())], 0..6),
         prop::collection::vec(any::<bool>(), 6),
         0usize..7,
-        0u8..16,
+        0u8..32,
     )
         .prop_map(move |(append, existing, chunks, flush, d, prelude)| {
             let drop_after = d.min(chunks.len());
